@@ -311,7 +311,8 @@ type discEnv struct {
 	mock  *mockdns.Server
 	srv   *miekgdns.Server
 	res   *dns.ExtResolver
-	zones map[string]mockdns.Zone // shared with the mock server; replaced between rows only
+	zmu   sync.RWMutex            // the mock server reads the map while answering
+	zones map[string]mockdns.Zone // shared with the mock server; replaced between rows
 
 	mu   sync.Mutex
 	held map[string]chan struct{} // MX name -> closed when its answers may go out
@@ -367,6 +368,8 @@ func (e *discEnv) serve(w miekgdns.ResponseWriter, m *miekgdns.Msg) {
 			}
 		}
 	}
+	e.zmu.RLock()
+	defer e.zmu.RUnlock()
 	e.mock.ServeDNS(w, m)
 }
 
@@ -395,12 +398,16 @@ func (e *discEnv) releaseAll() {
 }
 
 func (e *discEnv) clearZones() {
+	e.zmu.Lock()
+	defer e.zmu.Unlock()
 	for k := range e.zones {
 		delete(e.zones, k)
 	}
 }
 
 func (e *discEnv) addZones(mx string, in Round, recs []dns.TLSA) {
+	e.zmu.Lock()
+	defer e.zmu.Unlock()
 	z := e.zones
 	host := mx + "."
 	tname := "_25._tcp." + host
